@@ -121,6 +121,16 @@ struct Value {
                     --i;
                     continue;
                 }
+                if (bracket_start == start) {
+                    // a bracketed token ends with its closing bracket; whatever follows it - a separator, a comment glued to the
+                    // bracket, the start of another token - is looked at next, not skipped
+                    args_ptr[arg_idx] = strndup(&args_string[start], i - start);
+                    args.push_back(args_ptr[arg_idx]);
+                    arg_idx++;
+                    start = i;
+                    --i;
+                    continue;
+                }
             }
             if (i == args_len || (ch == ']' || ch == ' ' || ch == '\t' || ch == '\n' || ch == '\r' || ch == '#')) {
                 if (start == i) {
